@@ -11,6 +11,10 @@ CHECKS = {
    text="the program space is enumerated by TLC from the matching / signature / hook / notation models; every program is run through the tool and every successfully generated file is judged by the Go toolchain itself: gofmt -l must be silent and go build of the package (ordinary build: setup file excluded by its tag, output included) must report no error; diagnostics are attributed to functions by position and confirmed in isolation",
    note="judge = gofmt and the Go compiler; generic types, cgo and third-party dependencies are outside the alphabet",
    tech="TLC-enumerated program space from the TLA+ models; translation validation of each output by gofmt and go build"),
+ "C03": dict(cat="model_checking", sec="6 C03",
+   text="""spec/Selection.tla scans the items of a setup file (declarations, interfaces, floating comments, file attributes) and builds the required output item sequence; TLC checks AcceptWellFormed, EveryMethod, OnlySelected, KeepsAllInOrder, DocsKept on the model; the acceptance family varies exactly the layout attributes the implementation's position arithmetic depends on (body shorter than the 21-character placeholder, one-line form, comments at every position, blank lines, adjacent second converter interface): 4608 layouts, each one setup file run through the tool; exit 0 and one function per method required""",
+   note="layout attributes are ignored by the ideal specification (that is the property); grouped type declarations are not explored",
+   tech="TLA+ selection/carry-over model checked by TLC; TLC-enumerated layouts replayed through the real tool"),
  "C04": dict(cat="model_checking", sec="6 C04",
    text="spec/MatchField.tla walks the matching ladder (candidate selection, slice rule, assignable, stringer, typecast, member-wise descent) over all pairs of a 36-type alphabet whose assignability/convertibility tables are generated from go/types; TLC checks OptInOnly/NoneMeansNone/NameRule/AssignableTaken on the model and prints each configuration with its set of permitted outcomes; each is concretised, run through the tool and the projected outcome class must be in the set",
    note="trusts TLC, go/types (type tables) and the syntactic projector of generated bodies; choice among ambiguous same-named candidates is not judged (the property is silent)",
@@ -39,6 +43,10 @@ CHECKS = {
    text="static side: spec/Hooks.tla decides fit/reject and the emitted call for method shape x hook shape (5248 combinations incl. arity 0/1, operand mismatch, wrong results, unexported imported hook, missing, extra parameters none/all/fewer/wrong); TLC checks UnfitRejected, AdaptSound, OperandOrder, ErrNeedsErrResult on the model; every case is run through the tool and the call, its error check and its position relative to allocation and assignments are compared",
    note="the run-time side (exactly once, operands really shared, snapshots at call time) is decided by trace validation of executed generated functions (GenExec) once registered",
    tech="TLA+ hook-fit model exhausted by TLC; every case replayed through the real tool and compared on the projected call"),
+ "C11": dict(cat="model_checking", sec="6 C11",
+   text="""spec/Selection.tla scans the items of a setup file (declarations, interfaces, floating comments, file attributes) and builds the required output item sequence; TLC checks AcceptWellFormed, EveryMethod, OnlySelected, KeepsAllInOrder, DocsKept on the model; the carry-over family crosses declaration forms (var/func/type/const) with doc / trailing / go:generate-in-doc comments before and after a converter interface, floating comments, package doc, three build-constraint spellings and import sets (22464 layouts); the output is parsed and its declaration sequence with attached comments, package doc, forwarded method docs and the absence of directives, notation lines and the interface's doc are compared with the model's output items""",
+   note="comparison is on parsed structure (attachment of comments to declarations), never on formatting; floating comments are recorded but not demanded",
+   tech="TLA+ selection/carry-over model checked by TLC; TLC-enumerated layouts replayed through the real tool and compared on the parsed output"),
  "C12": dict(cat="model_checking", sec="6 C12",
    text="spec/CLI.tla models the files a run can see or touch; TLC checks Regenerated/ExitIgnoresOut/Idempotent on the model and enumerates every transition; every run transition from a state whose output path holds content (older output, truncated at a point, broken, ill-typed) is materialised and executed with the real binary next to its emptied twin; a crash sweep covers truncation offsets of the reference output; seeded TLC walks are replayed step by step",
    note="trusts TLC and the projection of the directory tree; reference bytes are the tool's own output on an empty path (the property's definition); thorough sweeps every byte offset",
@@ -51,6 +59,10 @@ CHECKS = {
    text="FrameRest/DryLeavesOut/FailLeavesOut are checked by TLC on spec/CLI.tla; every run transition (accepted and 7 kinds of rejected setup files x 16 flag sets x output-path states incl. directory and missing parent x log states) is replayed with the real binary and the whole tree (module, TMPDIR, HOME) is hashed before and after",
    note="we run as root, so 'unwritable' is modelled by a directory at the path / a missing parent; go command artefacts under HOME (.config/go telemetry, .cache) are ignored",
    tech="TLA+ file-system model checked by TLC; every TLC run transition replayed against the real binary with tree snapshots"),
+ "C17": dict(cat="model_checking", sec="6 C17",
+   text="""spec/Selection.tla scans the items of a setup file (declarations, interfaces, floating comments, file attributes) and builds the required output item sequence; TLC checks AcceptWellFormed, EveryMethod, OnlySelected, KeepsAllInOrder, DocsKept on the model; the selection family enumerates all sequences of 1..3 declarations over {Convergen-named, :convergen-marked, unmarked, marker look-alike interfaces, non-interface type with a marker} x sibling file {none, marked interface, Convergen-named interface} (423 files, exhaustive in both tiers); converted ids, untouched survivors, rejection iff no converter interface in the input file and nothing generated for sibling files are compared with the model""",
+   note="exhaustive for up to three interface declarations per file",
+   tech="TLA+ selection model exhausted by TLC; every case replayed through the real tool and compared on the parsed output"),
  "C18": dict(cat="model_checking", sec="6 C18",
    text="spec/CLI.tla derives output/log paths and print/dry/write behaviour; TLC enumerates 16 flag sets x 4 input spellings (relative, absolute, GOFILE, argument and GOFILE) x 3 working directories x path states; each transition is replayed with the real binary and the files created, stdout and exit status are compared with the model's successor state",
    note="'identically' on stdout is read as the file's bytes optionally followed by one newline of the print call",
